@@ -126,6 +126,15 @@ def specs(ctx, n):
         elif r2 < 0.35:
             calls[0]["max_time"] = 10 ** 6
             calls[0]["max_score"] = 1e12
+        # a continued search: an earlier search() call on the same optimizer (no early stopping) whose scores -- the best of them
+        # possibly far back -- are part of the history the rule looks at (score_l is the lifetime list)
+        if rng.random() < 0.3:
+            n0 = rng.choice([2, 4, 7, 10])
+            pre = [(rng.choice(alphabet), None) for _ in range(n0)]
+            if rng.random() < 0.6:
+                pre[rng.randrange(max(1, n0 // 2))] = (rng.choice([4.0, 6.0]), None)      # an early high score
+            script = pre + script
+            calls = [dict(n_iter=n0, memory=calls[0]["memory"])] + calls
         out.append(dict(name=name, space=space, table=table, script=script, calls=calls, seed=rng.randrange(10 ** 6),
                         init=gen.gen_initialize(rng, space), scalar=rng.choice(["float", "np"])))
     return out
@@ -134,21 +143,37 @@ def specs(ctx, n):
 def d_unit_and_monitor(ctx, n):
     u = ctx.unit("D:search(early_stopping)", "D",
                  "real search() with scripted dyadic score sequences (random, and improving-then-plateau) and early_stopping "
-                 "settings vs the model driver; non-trivial = n_iter > n_iter_no_change; distinct by (scores, cfg)")
+                 "settings vs the model driver, also as the second search() call of a continued search (the earlier call's scores are part "
+                 "of the history); non-trivial = n_iter > n_iter_no_change or continued; distinct by (scores, cfg)")
     ctx.monitor_rule = ("K: no_change(history) == documented rule (exact Fractions) and never raises; "
                         "D: rows == first k > n with rule(history[:k]) else n_iter")
     results = []
     for spec in specs(ctx, n):
         r = dunit.run_case(spec)
         results.append((spec, r))
-        c = spec["calls"][0]
+        c = spec["calls"][-1]
         es = c["early_stopping"]
-        u.count((tuple(x[0] for x in spec["script"]), repr(sorted(es.items()))),
-                nontrivial=c["n_iter"] > es["n_iter_no_change"])
+        u.count((tuple(x[0] for x in spec["script"]), repr(sorted(es.items())), len(spec["calls"])),
+                nontrivial=c["n_iter"] > es["n_iter_no_change"] or len(spec["calls"]) > 1)
         u.bump(spec["name"])
         if r["exc"] is not None:
             ctx.violation(dict(kind="search-raises", exception=r["exc"][0], optimizer=spec["name"]),
                           dict(spec=dunit.spec_full(spec)), "search() with early_stopping raised %s: %s" % r["exc"][:2])
+            continue
+        if len(spec["calls"]) > 1:
+            # continued search: the rule is applied to the lifetime history (the earlier call's scores included)
+            n0 = len(r["obs"][0]["score_l"])
+            allsc = r["obs"][-1]["score_l"]
+            ctx.monitor_runs += 1
+            ctx.monitor_nontrivial.add((spec["name"], tuple(allsc), repr(sorted(es.items())), "continued"))
+            k2 = next((j for j in range(1, len(allsc) - n0 + 1)
+                       if spec_rule(allsc[:n0 + j], es["n_iter_no_change"], es.get("tol_abs"), es.get("tol_rel"))), None)
+            ok = (len(allsc) - n0 == k2) if k2 is not None else (len(allsc) - n0 == c["n_iter"])
+            if not ok:
+                ctx.violation(dict(kind="early-stop-step", optimizer=spec["name"], continued=True),
+                              dict(spec=dunit.spec_full(spec), scores=allsc, earlier_steps=n0),
+                              "continued search: %d steps in the second call but the rule (on the lifetime history) first holds at its step %r (n_iter=%d)"
+                              % (len(allsc) - n0, k2, c["n_iter"]))
             continue
         o = r["obs"][0]
         scores = o["score_l"]
